@@ -26,7 +26,7 @@ Oracle (what C26 states):
   fresh     a returned value finished loading less than `lifetime` ago, and is a value for the key asked
   single    at most one load per key is in flight at any time
   errors    a lookup raises only CancelledError if the director cancelled that very task, or LoadError if a load
-            of its key was failed during its life; in particular cancelling one caller must not fail another
+            of its key ended with LoadError during its life; in particular cancelling one caller must not fail another
   live      once every pending load is completed every lookup has finished
 """
 import asyncio
@@ -92,29 +92,38 @@ cache_mod.prom_async_time = _prom_async_time
 
 async def scenario(nt, slots, lifetime, acts, keys, dts, drains, mode, trace=None, stats=None):
     stats = {} if stats is None else stats
-    stats.update({'complete': False, 'loader_cancels': 0, 'follower_cancels': 0, 'shared': False})
+    stats.update({'complete': False, 'loader_cancels': 0, 'follower_cancels': 0, 'shared': False, 'bad': None})
     clock = [0]
     slots = sched.concretize(slots, 1, 2)
     cache_mod.time = _TimeShim(clock)
-    pending = []                 # [key, future] of loads the director has not completed
+    loads = []                   # [key, future] of load coroutines that have not ended yet
     inflight = [0] * NK
-    failed_at = [[] for _ in range(NK)]   # director-failed loads per key: step numbers
+    failed_at = [[] for _ in range(NK)]   # per key: steps during which a load of it ended with LoadError
     flags = {'bad': None, 'step': 0}
 
     async def load(k):
         inflight[k] += 1
         if inflight[k] > 1:
-            flags['bad'] = 'single: two loads of the same key in flight'
+            note('single: two loads of the same key in flight')
         fut = asyncio.get_running_loop().create_future()
         rec = [k, fut]
-        pending.append(rec)
+        loads.append(rec)
         try:
             await fut
+        except LoadError:
+            failed_at[k].append(flags['step'])
+            raise
         finally:
             inflight[k] -= 1
-            if rec in pending:
-                pending.remove(rec)
+            loads.remove(rec)
         return Value(k, clock[0])
+
+    def note(msg):
+        """Violations are recorded, not raised: the schedule runs to its end so that the mode it belongs to (a
+        property of the whole schedule) is known before the verdict is given."""
+        if flags['bad'] is None:
+            flags['bad'] = msg
+            stats['bad'] = msg
 
     cache = cache_mod.TimeLimitedMaxSizeCache(load, lifetime, slots, 'c26')
     tasks, tkey, tstart = [], [], []
@@ -135,15 +144,15 @@ async def scenario(nt, slots, lifetime, acts, keys, dts, drains, mode, trace=Non
             return
         outcome[i] = 'ok'
         if not isinstance(v, Value) or v.k != k:
-            flags['bad'] = 'fresh: lookup returned a value that is not a value of the key asked'
+            note('fresh: lookup returned a value that is not a value of the key asked')
         elif not clock[0] - v.born < lifetime:
-            flags['bad'] = 'fresh: lookup returned a value older than the lifetime'
+            note('fresh: lookup returned a value older than the lifetime')
 
     def waiting(i):
         """Task i has run, has no outcome yet and a load of its key is pending: it is blocked in lookup."""
         if tasks[i].done() or outcome[i] is not None or getattr(tasks[i], '_fut_waiter', None) is None:
             return False
-        for r in pending:
+        for r in loads:
             if r[0] == tkey[i]:
                 return True
         return False
@@ -163,35 +172,32 @@ async def scenario(nt, slots, lifetime, acts, keys, dts, drains, mode, trace=Non
 
     def check():
         if flags['bad']:
-            raise Bad(flags['bad'])
+            return
         if len(cache._cache) > slots:
-            raise Bad('bounded: cache holds more entries than num_slots')
+            return note('bounded: cache holds more entries than num_slots')
         for i in range(len(tasks)):
             o = outcome[i]
             if o is None or o == 'ok':
                 continue
             if o == 'cancelled':
                 if not cancelled[i]:
-                    raise Bad(f'errors: lookup task {i} raised CancelledError but was never cancelled')
+                    return note(f'errors: lookup task {i} raised CancelledError but was never cancelled')
             elif o == 'loaderror':
                 ok = False
                 for s in failed_at[tkey[i]]:
                     if s >= tstart[i]:
                         ok = True
                 if not ok:
-                    raise Bad(f'errors: lookup task {i} raised LoadError but no load of its key failed during its life')
+                    return note(f'errors: lookup task {i} raised LoadError but no load of its key failed during its life')
             else:
-                raise Bad(f'errors: lookup task {i} {o}')
+                return note(f'errors: lookup task {i} {o}')
 
     def finish_load(which, fail, s):
+        pending = [r for r in loads if not r[1].done()]
         if not pending or (which == 1 and len(pending) < 2):
             raise sched.Prune()
         rec = pending[0] if which == 0 else pending[len(pending) - 1]
-        if rec[1].done():
-            raise sched.Prune()
-        pending.remove(rec)
         if fail:
-            failed_at[rec[0]].append(s)
             rec[1].set_exception(LoadError())
         else:
             rec[1].set_result(None)
@@ -210,7 +216,7 @@ async def scenario(nt, slots, lifetime, acts, keys, dts, drains, mode, trace=Non
                 tstart.append(s)
                 cancelled.append(False)
                 outcome.append(None)
-                for r in pending:
+                for r in loads:
                     if r[0] == k:
                         stats['shared'] = True
                 tasks.append(asyncio.ensure_future(runner(i, k)))
@@ -252,22 +258,23 @@ async def scenario(nt, slots, lifetime, acts, keys, dts, drains, mode, trace=Non
         await sched.settle()
         check()
         for _ in range(nt + 1):
-            if not pending:
+            if not loads:
                 break
-            for rec in list(pending):
+            for rec in list(loads):
                 if not rec[1].done():
                     rec[1].set_result(None)
-                pending.remove(rec)
             await sched.settle()
             check()
         for i in range(len(tasks)):
             if not tasks[i].done():
-                raise Bad(f'live: lookup task {i} never finished although every load was completed')
+                note(f'live: lookup task {i} never finished although every load was completed')
         if trace is not None:
             trace.append(('end', True, int(clock[0]), list(outcome), sorted(int(x) for x in cache._cache)))
+        if flags['bad']:
+            raise Bad(flags['bad'])
         return stats
     finally:
-        for rec in list(pending):
+        for rec in list(loads):
             if not rec[1].done():
                 rec[1].cancel()
         await sched.cleanup(tasks)
